@@ -1,6 +1,7 @@
 #!/bin/bash
 # tools/seedregress.sh <nlanes> [pattern] — run ./check against every stored seeded change (seeded/<pattern>*/patch.diff)
 # on the current /repo HEAD, in <nlanes> parallel copies of /verif (/tmp/vreg-<k>). Result lines: /tmp/vreg-results/<name>.txt
+# env ONLY / EXCEPT: extended regexes on the seed name (e.g. EXCEPT='^(C02|C04)-').
 # and a summary on stdout: <name> input|unshown|MISSED|no-apply
 N=${1:-4}; PAT=${2:-}
 export GOFLAGS=-mod=mod GOPROXY=off
@@ -14,7 +15,10 @@ done
 wait
 i=0
 for d in /verif/seeded/${PAT}*/; do
-  name=$(basename $d); echo "$((i % N)) $name"; i=$((i+1))
+  name=$(basename $d)
+  if [ -n "$ONLY" ] && ! echo "$name" | grep -Eq "$ONLY"; then continue; fi
+  if [ -n "$EXCEPT" ] && echo "$name" | grep -Eq "$EXCEPT"; then continue; fi
+  echo "$((i % N)) $name"; i=$((i+1))
 done > /tmp/vreg-results/plan
 lane() {
   k=$1; V=/tmp/vreg-$k
